@@ -279,7 +279,8 @@ LEVEL_TEXT = (
     "driving-force evaluations inside each call are tapped, and the returned fluxes are compared with P*(p_feed - "
     "p_perm(y*)) rebuilt from the public thermodynamics at 64 ulp, the self-consistency |y_J - y*| < precision is demanded "
     "wherever the measured local contraction factor is < 0.999, vacuum / p=0 results bitwise, the pressure identity at "
-    "64 ulp, power-of-two permeance scalings bitwise. Held means no oracle failed on this run's executions."
+    "64 ulp, power-of-two permeance scalings bitwise; a third of the calls is made positionally in the released parameter "
+    "order, and a burst of concurrent calls on one shared object must reproduce the serial values. Held means no oracle failed on this run's executions."
 )
 LEVEL_NOTE = "Trusted: the library's get_partial_pressures (checked by C04), the measured contraction factor (finite difference of the reference map); calls that raise or exceed 20000 evaluations are counted, not judged."
 TECHNIQUE = "runtime monitoring: tapped inner evaluations + reference recomputation and metamorphic (scaling) twins over seeded executions of the real flux solver"
